@@ -709,26 +709,34 @@ def Heatmap.writeRow {α : Type} (A : Arith α) (env : Env) (h : Heatmap) (vt : 
   let vt' ← vt.writeForLine (2 + idx) (wrap env cYellow name ++ writeRepeat 32 (h.maxRowKeyWidth - rlen + 1) ++ cells.flatten)
   pure (h, vt')
 
+/-- `UpdateMinMaxFromData`: the range the table is drawn with (fixed ends stay) -/
+def Heatmap.range (h : Heatmap) (c : Cells) : Int × Int :=
+  let (tmin, tmax) := if !h.fixedMin || !h.fixedMax then c.minMax else (h.minVal, h.maxVal)
+  (if !h.fixedMin then tmin else h.minVal, if !h.fixedMax then tmax else h.maxVal)
+
+/-- the row loop of `WriteTable`: `s.WriteRow(i, rows[i], colNames[:colCount])` -/
+def Heatmap.writeRows {α : Type} (A : Arith α) (env : Env) (h : Heatmap) (vt : VirtualTerm) (rkeys : List Bytes) (c : Cells)
+    (shownCols : List Nat) (rows : List Nat) : Res (Heatmap × VirtualTerm) :=
+  rows.zipIdx.foldlM (fun (st : Heatmap × VirtualTerm) (ri : Nat × Nat) =>
+    st.1.writeRow A env st.2 ri.2 (keyAt rkeys ri.1) (shownCols.map (c.value ri.1))) (h, vt)
+
+/-- "If more rows than can display, write how many were missed" -/
+def Heatmap.writeRowsNote (env : Env) (h : Heatmap) (vt : VirtualTerm) (nrows rowCount : Int) : Res (Heatmap × VirtualTerm) :=
+  if nrows > rowCount then do
+    let vt ← vt.writeForLine (2 + rowCount) (wrap env cBrightBlack (moreNote (nrows - rowCount)))
+    pure ({ h with currentRows := 3 + rowCount }, vt)
+  else pure ({ h with currentRows := 2 + rowCount }, vt)
+
 /-- `Heatmap.WriteTable(agg, rowSorter, colSorter)` -/
 def Heatmap.writeTable {α : Type} (A : Arith α) (env : Env) (h : Heatmap) (vt : VirtualTerm) (rkeys ckeys : List Bytes) (c : Cells) :
     Res (Heatmap × VirtualTerm) := do
-  -- UpdateMinMaxFromData
-  let (tmin, tmax) := if !h.fixedMin || !h.fixedMax then c.minMax else (h.minVal, h.maxVal)
-  let min := if !h.fixedMin then tmin else h.minVal
-  let max := if !h.fixedMax then tmax else h.maxVal
-  let (h, vt) ← h.updateMinMax A env vt min max
-  let colIdx := c.cols
-  let (hdr, colCount) ← h.headerText env (colIdx.map (keyAt ckeys))
+  let (h, vt) ← h.updateMinMax A env vt (h.range c).1 (h.range c).2
+  let (hdr, colCount) ← h.headerText env (c.cols.map (keyAt ckeys))
   let vt ← vt.writeForLine 1 hdr
-  let rows := c.rows
-  let rowCount := mini rows.length h.rowCount
-  let shownCols ← sliceTo colIdx colCount
-  let (h, vt) ← (rows.take rowCount.toNat).zipIdx.foldlM (fun (st : Heatmap × VirtualTerm) (ri : Nat × Nat) =>
-    st.1.writeRow A env st.2 ri.2 (keyAt rkeys ri.1) (shownCols.map (c.value ri.1))) (h, vt)
-  if (rows.length : Int) > rowCount then
-    let vt ← vt.writeForLine (2 + rowCount) (wrap env cBrightBlack (moreNote (rows.length - rowCount)))
-    pure ({ h with currentRows := 3 + rowCount }, vt)
-  else pure ({ h with currentRows := 2 + rowCount }, vt)
+  let rowCount := mini c.rows.length h.rowCount
+  let shownCols ← sliceTo c.cols colCount
+  let (h, vt) ← h.writeRows A env vt rkeys c shownCols (c.rows.take rowCount.toNat)
+  h.writeRowsNote env vt c.rows.length rowCount
 
 def Heatmap.writeFooter (h : Heatmap) (vt : VirtualTerm) (idx : Int) (line : Bytes) : Res VirtualTerm :=
   vt.writeForLine (h.currentRows + idx) line
@@ -780,21 +788,28 @@ def Spark.rowCells {α : Type} (A : Arith α) (env : Env) (s : Spark) (rkeys : L
 /-- the displayed rows -/
 def Spark.shownRows (s : Spark) (c : Cells) : List Nat := c.rows.take (mini c.rows.length s.rowCount).toNat
 
+/-- "Write header": only when a column is displayed (9780d5d) -/
+def Spark.headerOps (env : Env) (names : List Bytes) : List TableOp :=
+  if names.length > 0 then [TableOp.row 0 (Spark.headerCells env names)] else []
+
+/-- one iteration of "Each row...": `s.table.WriteRow(i+1, …)` -/
+def Spark.rowOp {α : Type} (A : Arith α) (env : Env) (s : Spark) (rkeys : List Bytes) (c : Cells) (colIdx : List Nat)
+    (ri : Nat × Nat) : Res TableOp := do
+  let cells ← s.rowCells A env rkeys c colIdx c.minMax.1 c.minMax.2 ri.1
+  pure (TableOp.row ((ri.2 : Int) + 1) cells)
+
+/-- "If more rows than can display, write how many were missed", and the new footer offset -/
+def Spark.noteOps (env : Env) (s : Spark) (c : Cells) : List TableOp × Int :=
+  let rowCount := mini c.rows.length s.rowCount
+  if (c.rows.length : Int) > rowCount then
+    ([TableOp.footer 0 (wrap env cBrightBlack (moreNote ((c.rows.length : Int) - rowCount)))], 1)
+  else ([], 0)
+
 /-- the calls of `Spark.WriteTable` on its table, in order, and the new footer offset -/
 def Spark.script {α : Type} (A : Arith α) (env : Env) (s : Spark) (rkeys ckeys : List Bytes) (c : Cells) : Res (List TableOp × Int) := do
-  let (minVal, maxVal) := c.minMax
   let colIdx ← s.shownCols c
-  let names := colIdx.map (keyAt ckeys)
-  let hdr := if names.length > 0 then [TableOp.row 0 (Spark.headerCells env names)] else []
-  let rows := c.rows
-  let shown := s.shownRows c
-  let rowOps ← shown.zipIdx.mapM fun (ri : Nat × Nat) => do
-    let cells ← s.rowCells A env rkeys c colIdx minVal maxVal ri.1
-    pure (TableOp.row ((ri.2 : Int) + 1) cells)
-  let rowCount := mini rows.length s.rowCount
-  if (rows.length : Int) > rowCount then
-    pure (hdr ++ rowOps ++ [TableOp.footer 0 (wrap env cBrightBlack (moreNote ((rows.length : Int) - rowCount)))], 1)
-  else pure (hdr ++ rowOps, 0)
+  let rowOps ← (s.shownRows c).zipIdx.mapM (s.rowOp A env rkeys c colIdx)
+  pure (Spark.headerOps env (colIdx.map (keyAt ckeys)) ++ rowOps ++ (s.noteOps env c).1, (s.noteOps env c).2)
 
 /-- `Spark.WriteTable(agg, rowSorter, colSorter)` (after 9780d5d, c54b92c) -/
 def Spark.writeTable {α : Type} (A : Arith α) (env : Env) (s : Spark) (vt : VirtualTerm) (rkeys ckeys : List Bytes) (c : Cells) :
